@@ -344,10 +344,15 @@ _c06as = ["representation invariant I: a name occupies at most one slot; every v
 H("C06", "mpq", _M, "quick", "C06.a lookup agrees with the abstract map in every valid table state", ["c06a_lookup_agrees_with_model"], _c06f, _c06in,
   "4-slot table, 4 names, unwind 18", assumes=_c06as, stubs=[FMT, HS, RS], abstraction_stubs=["hash_string"], timeout=900,
   termination_of=["find_file_entry", "add_to_hash_table"])
-H("C06", "mpq", _M, "quick", "C06.a one real remove / rename / insert step acts on the table as on a plain map, failure leaves it unchanged, invariant preserved, probing terminates",
-  ["c06a_remove_step", "c06a_rename_step", "c06a_insert_step"], _c06f, _c06in, "4-slot table, 4 names, one operation (inductive step), unwind 18",
-  assumes=_c06as + ["insert/rename: the table has at least one free slot (known finding KF-C06-full-table excluded)"], stubs=[FMT, HS, RS],
+H("C06", "mpq", _M, "quick", "C06.a one real remove / insert step acts on the table as on a plain map, failure leaves it unchanged, invariant preserved, probing terminates",
+  ["c06a_remove_step", "c06a_insert_step"], _c06f, _c06in, "4-slot table, 4 names, one operation (inductive step), unwind 18",
+  assumes=_c06as + ["insert: the table has at least one free slot (known finding KF-C06-full-table excluded)"], stubs=[FMT, HS, RS],
   abstraction_stubs=["hash_string"], timeout=900, termination_of=["find_file_entry", "add_to_hash_table"])
+# the rename step needs 6-10 minutes of solver time: thorough tier (the quick command has to finish well inside 15 minutes on a cold build)
+H("C06", "mpq", _M, "thorough", "C06.a one real rename step acts on the table as on a plain map, failure leaves it unchanged, invariant preserved, probing terminates",
+  ["c06a_rename_step"], _c06f, _c06in, "4-slot table, 4 names, one operation (inductive step), unwind 18",
+  assumes=_c06as + ["rename: the table has at least one free slot (known finding KF-C06-full-table excluded)"], stubs=[FMT, HS, RS],
+  abstraction_stubs=["hash_string"], timeout=2400, termination_of=["find_file_entry", "add_to_hash_table"])
 H("C06", "mpq", _M, "quick", "C06.a witness: insertion into a table without a free slot", ["c06a_insert_full_table_witness"], _c06f,
   "concrete full 4-slot table", "one input, unwind 10", stubs=[FMT, HS, RS], abstraction_stubs=["hash_string"],
   expect="witness:KF-C06-full-table", termination_of=["add_to_hash_table"])
@@ -439,7 +444,7 @@ H("C19", "ffi", _F, "thorough", "C19.b seek step from any valid open-file state:
   ["c19b_set_file_pointer_step"], ["SFileSetFilePointer"],
   "file of 4 symbolic bytes, cursor in 0..=4, low/high offsets (i32), presence of the high pointer and move method (u32) symbolic",
   "one call on one fabricated FILES entry", stubs=[FMT, RS], timeout=2400)
-H("C19", "ffi", _F, "quick", "C19.a read step: exactly min(to_read, remaining) bytes are copied, nothing beyond them is written, cursor advances",
+H("C19", "ffi", _F, "thorough", "C19.a read step: exactly min(to_read, remaining) bytes are copied, nothing beyond them is written, cursor advances",
   ["c19a_read_step_t4"], ["SFileReadFile"],
   "file of 3 symbolic bytes, cursor in 0..=3 symbolic, to_read 4 (longer than the file: every short-read case), 8-byte buffer with guard zone", "one call", stubs=[FMT, RS], timeout=2400)
 H("C19", "ffi", _F, "thorough", "C19.a read step, to_read 2",
@@ -466,7 +471,7 @@ H("C05", "mpq", _HD, "quick", "C05.mpq.1 MpqHeader::read is total on arbitrary (
   ["c05_mpq_header_v1_total", "c05_mpq_header_v2_total", "c05_mpq_header_v3_total", "c05_mpq_header_v4_total"],
   ["header::MpqHeader::read_with_limits", "security::validate_header_security", "header::MpqHeader::{sector_size,get_hash_table_pos,get_block_table_pos,get_archive_size}"],
   "32/44/68/208 header bytes fully symbolic behind the assigned magic and version tag; symbolic truncation length", "one header", stubs=[FMT], timeout=900)
-H("C05", "mpq", _HD, "quick", "C05.mpq.1 header discovery terminates when a user-data header points at or beyond the end of the file (any such offset)",
+H("C05", "mpq", _HD, "thorough", "C05.mpq.1 header discovery terminates when a user-data header points at or beyond the end of the file (any such offset)",
   ["c05_mpq_find_header_userdata_beyond_eof"], ["header::find_header_with_limits"],
   "file of 528 bytes: user-data header at offset 0 with 12 symbolic bytes, header_offset >= file size (symbolic)", "2 scan steps, unwind 6",
   stubs=[FMT], timeout=2400, termination_of=["find_header_with_limits"])
